@@ -733,6 +733,7 @@ Definition enc_spec (addr dest : N) (m : option (N * list N)) (buf : list N) (r 
   | None => r = (buf, Val None)
   | Some (mt, body) =>
       if (259 <? 10 + length body)%nat then r = (buf, Val None)
-      else (10 + length body <= length buf)%nat ->
-           r = (spec_packet addr dest mt body ++ skipn (10 + length body) buf, Val (Some (10 + length body)%nat))
+      else if (10 + length body <=? length buf)%nat
+           then r = (spec_packet addr dest mt body ++ skipn (10 + length body) buf, Val (Some (10 + length body)%nat))
+           else forall m out, r <> (out, Val (Some m))       (* a buffer shorter than the packet: never a success *)
   end.
